@@ -1,3 +1,3 @@
 SPECIFICATION Spec
-CONSTANTS MaxJobs = 2  MaxFail = 0  GenDepth = 0  WeakDeps = TRUE  WeakOnce = FALSE  WeakBound = FALSE
+CONSTANTS MaxJobs = 2  MaxFail = 0  GenDepth = 0  WeakDeps = TRUE  WeakOnce = FALSE  WeakBound = FALSE  Dags = {1, 2, 3, 4, 5, 6}
 INVARIANT Independence
